@@ -60,6 +60,11 @@ Proof.
   - apply nearest_even_hom_neg. reflexivity.
 Qed.
 
+(* exact real arithmetic is the mode with the identity rounding: every factor qualifies, so the theorems also give the
+   whole-result similarity laws over the reals (pairs with the textbook formulas) for EVERY real factor *)
+Lemma ExactMode_hom (s : R) : hom (rnd ExactMode) s /\ hom (rnd32 ExactMode) s.
+Proof. split; intros x; reflexivity. Qed.
+
 (* the rounding is not the identity: 2^53 + 1 is not a binary64 number *)
 Lemma rn53_not_identity : rn53 (bpow radix2 53 + 1) <> bpow radix2 53 + 1.
 Proof.
